@@ -46,6 +46,7 @@ from vlib import env
 THEOREMS = [
     "reported_pattern_matches", "ignored_iff_some_matches", "group_size_irrelevant_ignored",
     "group_size_irrelevant_partial", "group_size_witness", "first_in_type_order_noext",
+    "group_size_irrelevant_inorder",
     "exception_double", "exception_single", "exception_plain", "exception_ignored_iff",
     "exception_group_size_irrelevant", "exception_empty_pattern_witness", "splitExc_spec",
     "basename_dir_irrelevant", "ext_literal_iff_suffix", "starstar_iff", "lex_starstar_prefix",
@@ -688,10 +689,31 @@ def _pp(s):
     return "None" if s == "N" else (repr(dec(s[2:])) if s.startswith("S ") else s)
 
 
+_VARIANT = [None]
+
+
+def variant():
+    """which shape the extension regex has in the code under test (read from the
+    live objects): 'greedy' = shared prefix `(?:.*\\.)` (current code), 'inorder'
+    = every alternative carries its own `.*\\.`; anything else is not modelled"""
+    if _VARIANT[0] is None:
+        from breezy import globbing
+        pi = globbing.Globster.pattern_info
+        ext = (pi["extension"]["prefix"], pi["extension"]["translator"]("*.x"))
+        base = pi["basename"]["prefix"]
+        if ext == (base + r"(?:.*\.)", "x"):
+            _VARIANT[0] = "greedy"
+        elif ext == (base, r".*\.x") or ext == (base, r"(?:.*\.)x"):
+            _VARIANT[0] = "inorder"
+        else:
+            _VARIANT[0] = "unknown"
+    return _VARIANT[0]
+
+
 def _line(op, pats, name, g=GROUP):
     if op == "ord":
         return "ord %s %s" % (enc_list(pats), enc(name))
-    return "%s %d %s %s" % (op, g, enc_list(pats), enc(name))
+    return "%s %s %d %s %s" % (op, variant(), g, enc_list(pats), enc(name))
 
 
 # ----------------------------------------------------------------------
@@ -864,6 +886,11 @@ def run(ctx):
             if fn.endswith(".json"):
                 case = json.load(open(os.path.join(cdir, fn)))
                 _replay_one(ctx, case)
+    ctx.extra["extension_regex_variant"] = variant()
+    if variant() == "unknown":
+        from breezy import globbing
+        ctx.mismatch(dict(op="shape"), repr(globbing.Globster.pattern_info["extension"]["prefix"]),
+                     "extension prefix/translator shape not modelled")
     run_norm(ctx, ctx.pick(3000, 30000))
     run_lists(ctx, ctx.pick(6000, 60000), ctx.pick(400, 4000), ctx.pick(600, 6000))
     run_tree(ctx, ctx.pick(60, 600))
